@@ -350,16 +350,32 @@ detach(struct bitstream bs)
 
 
 /* Dispose of a retrieve job that will never complete.  If the job is
-   speculative, its unord block is shared with the parser: whoever comes
-   second releases it. */
+   speculative, its unord block goes with it: either the parser has already
+   taken it out of unord_q and left it to the job (complete is set), or it is
+   still queued.  It must not stay queued, because every entry of unord_q has
+   to be backed by a work unit or an output slot for the queue's capacity to
+   suffice, and the parser could never match it anyway. */
 static void
 discard(struct retr_blk *rb)
 {
-  if (rb->unord_link != NULL) {
-    if (rb->unord_link->complete)
-      free(rb->unord_link);     /* parser is already done with it */
-    else
-      rb->unord_link->complete = true;  /* parser will release it */
+  struct unord_blk *ub = rb->unord_link;
+
+  if (ub != NULL) {
+    if (!ub->complete) {
+      unsigned i = 0u;
+
+      /* Make the entry the smallest one, then remove the head. */
+      while (unord_q.root[i] != ub) {
+        i++;
+        assert(i < size(unord_q));
+      }
+      ub->base.major = 0u;
+      ub->base.minor = 0u;
+      up_heap(unord_q.root, i);
+      ub = dequeue(unord_q);
+      assert(ub == rb->unord_link);
+    }
+    free(ub);
   }
 
   decoder_free(&rb->ds);
@@ -817,7 +833,9 @@ do_scan(void)
     return;
   }
 
-  if (pos_le(bs->pos, parser_bs.pos)) {
+  if (pos_le(bs->pos, parser_bs.pos) || bs->offset < head_offs) {
+    /* Either the parser has been here, or the master has already released the
+       input a retrieve job would have to start from. */
     Trace(("Scanner found a known pattern at {%lu}",
            32ul + 32ul * bs->offset - bs->live));
     work_units++;
